@@ -151,7 +151,7 @@ impl<'a, 'b> InlineState<'a, 'b> {
             text.content.truncate(text.content.len() - count);
             if let Some(map) = node.srcmap {
                 let (map_start, map_end) = map.get_byte_offsets();
-                let map_end = self.get_source_pos_for(map_end - count);
+                let map_end = map_end - count;
                 node.srcmap = Some(SourcePos::new(map_start, map_end));
             }
             self.node.children.push(node);
